@@ -12,6 +12,7 @@ oracles used by the property checks.
 """
 import functools
 import hashlib
+import heapq
 import os
 import xml.etree.ElementTree as ET
 from collections import deque
@@ -634,12 +635,17 @@ class DFA:
         if key in self._comp_cache:
             return self._comp_cache[key]
         idx = {k: i for i, k in enumerate(names)}
-        start = (0, vec)
-        seen = {start}
-        q = deque([start])
+        # search over (state, still-needed vector) with dominance pruning: at one DFA state a vector that is
+        # componentwise <= another makes the other redundant (every path from the larger is a path from the smaller
+        # with a smaller-or-equal remainder), so only an antichain of minimal vectors is kept per state.
+        best = {0: [vec]}
+        q = [(sum(vec), 0, 0, vec)]
+        tick = 0
         res = False
         while q:
-            s, rem = q.popleft()
+            _, _, s, rem = heapq.heappop(q)
+            if rem not in best.get(s, ()):
+                continue   # superseded by a dominating vector
             if not any(rem):
                 res = True   # trimmed DFA: every state can reach acceptance
                 break
@@ -649,10 +655,13 @@ class DFA:
                     nr = rem[:i] + (rem[i] - 1,) + rem[i + 1:]
                 else:
                     nr = rem
-                st = (j, nr)
-                if st not in seen:
-                    seen.add(st)
-                    q.append(st)
+                cur = best.setdefault(j, [])
+                if any(all(x <= y for x, y in zip(o, nr)) for o in cur):
+                    continue
+                cur[:] = [o for o in cur if not all(x <= y for x, y in zip(nr, o))]
+                cur.append(nr)
+                tick += 1
+                heapq.heappush(q, (sum(nr), tick, j, nr))
         self._comp_cache[key] = res
         return res
 
